@@ -30,7 +30,8 @@ RULE = ("Parser cases: batches of inputs for parse_packet (valid checksum), deco
         "connected real DTLS transport, and nonsense RTP / RTCP sent by the authenticated peer through its real SRTP session to a "
         "real receiver and sender: transport still 'connected', valid media / RTCP / data afterwards still delivered. "
         "Distinct/non-trivial = distinct (parser or state, outcome class, template) tuples that got past the outer validity "
-        "checks.")
+        "checks."
+        " SCTP cases also use well-formed datagrams out of context: verbatim replays of what the peer sent earlier (handshake chunks included), ABORT, RE-CONFIG responses matching the victim's pending request, reset requests for arbitrary streams.")
 ASSUMPTIONS = [
     "work is measured in monitored interpreter steps inside the repository's sources, not in wall-clock time",
     "well-formed hostile chunks that the stack accepts come from a lying peer, which may break its own data: only 'no exception, no hang, still connected, channels still usable for fresh traffic' is required there",
